@@ -42,6 +42,9 @@ pub enum Pattern {
     ClientIdle(u16),
     /// the same with the send window (1) taken by a QoS 1 publish the peer does not acknowledge
     ClientIdleWindowFull(u16),
+    /// a publish handler busy for three periods with the receive limits reached (reading is paused) while the peer keeps
+    /// sending a complete PINGREQ every `gap` deciseconds: the live peer is not timed out, everything is answered afterwards
+    LiveBusy { gap: u8 },
 }
 
 #[derive(Clone, Copy, Debug, PartialEq, Eq, Hash, Serialize, Deserialize)]
@@ -122,6 +125,12 @@ async fn run_conn(c: Case) -> Verdict {
             cfg.v3.max_send = 1;
             cfg.v5.connack.receive_max = Some(1);
         }
+    }
+    if matches!(c.pattern, Pattern::LiveBusy { .. }) {
+        // one packet / 64 bytes in flight: the held handler of a 100-byte publish makes the service not ready
+        cfg.v3.max_receive = 1;
+        cfg.v3.max_receive_size = 64;
+        cfg.v5.max_receive_size = 64;
     }
     let eut = Eut::start(c.role, &cfg).await;
     let t0 = Instant::now();
@@ -248,6 +257,42 @@ async fn run_conn(c: Case) -> Verdict {
                 return Verdict::Inconclusive(format!("driver slipped {max_slip:?}"));
             }
             Verdict::Ok(CaseInfo::nontrivial(&c).label(if fragmented { "live-peer-fragmented" } else { "live-peer" }))
+        }
+        Pattern::LiveBusy { gap } => {
+            let Some(t) = period(c.source) else { return Verdict::Inconclusive("busy pattern needs a period".into()) };
+            let gap = Duration::from_millis(u64::from(gap) * 100);
+            let total = t * 3;
+            app.hold(G_PUB, 0);
+            let publish = eut.encode(&P5::Publish(Box::new(s5::Publish5 { topic: "t/a".into(), qos: 1, pid: Some(1), payload_len: 100, ..Default::default() })), &[5u8; 100]);
+            eut.peer().send(&publish);
+            let mut pings = 0usize;
+            let mut i = 0u32;
+            while gap * (i + 1) <= total {
+                i += 1;
+                max_slip = max_slip.max(sleep_until(t0, gap * i).await);
+                if ended(&eut) {
+                    if max_slip > slip_limit {
+                        return Verdict::Inconclusive(format!("driver slipped {max_slip:?}"));
+                    }
+                    return Verdict::Fail(Failure::new("live-peer-timed-out", format!("C20/{}/live-peer-timed-out", c.role.name()), format!("a publish handler is busy (reading paused by the receive limits) and the peer sends a complete PINGREQ every {gap:?} (idle period {t:?}) but the connection ended after {:?}: {:?}; case {c:?}", t0.elapsed(), app.stops())));
+                }
+                eut.peer().send(&ping);
+                pings += 1;
+            }
+            // the handler finishes: everything the peer sent is answered
+            app.open_all();
+            sleep(TICK * 3).await;
+            if max_slip > slip_limit {
+                return Verdict::Inconclusive(format!("driver slipped {max_slip:?}"));
+            }
+            let (pk, _) = eut.packets();
+            let acks = pk.iter().filter(|w| matches!(&w.pkt, P5::PubAck(a) if a.pid == 1)).count();
+            let pongs = pk.iter().filter(|w| matches!(w.pkt, P5::PingResp)).count();
+            if ended(&eut) || acks != 1 || pongs != pings {
+                return Verdict::Fail(fail(&c, "busy-handler-traffic-lost", format!("after the busy handler finished: ended {}, {acks} PUBACK, {pongs} PINGRESP for {pings} PINGREQ; stops {:?}", ended(&eut), app.stops())));
+            }
+            eut.finish().await;
+            Verdict::Ok(CaseInfo::nontrivial(&c).label("live-peer-busy-handler"))
         }
         Pattern::PartialStall | Pattern::Trickle { .. } => {
             let payload = vec![7u8; 200];
@@ -376,6 +421,7 @@ pub fn all_cases(thorough: bool) -> Vec<Case> {
                         out.push(Case { role, source: *source, pattern: Pattern::Live { gap, fragmented } });
                     }
                 }
+                out.push(Case { role, source: *source, pattern: Pattern::LiveBusy { gap: 5 } });
             }
         }
         out.push(Case { role, source: Source::Client(10), pattern: Pattern::PartialStall });
@@ -482,7 +528,7 @@ pub fn run(ctx: &Ctx, started: Instant) -> i32 {
         level: "exploration",
         rule: format!(
             "{total} connections in real time (several repetitions at staggered phases of the 1 s timer wheel), all concurrent: keep-alive source {{client value 1/2 (thorough 3) s -> idle period k + k/2; handshake override idle_timeout / keep_alive 1/2 (3) s; v3 idle_timeout(0) = disabled}} x \
-             {{dead peer: 0..2 complete packets 0.5 s or T-0.5 s apart, then silence -> ended within [T-0.6 s, T+2.2 s] after the last complete packet with a keep-alive timeout (v5: DISCONNECT 0x8D); live peer: a complete packet every 0.5 s or T-1.0 s for three periods, whole or in two writes 0.2 s apart -> never ended}}; \
+             {{dead peer: 0..2 complete packets 0.5 s or T-0.5 s apart, then silence -> ended within [T-0.6 s, T+2.2 s] after the last complete packet with a keep-alive timeout (v5: DISCONNECT 0x8D); live peer: a complete packet every 0.5 s or T-1.0 s for three periods, whole or in two writes 0.2 s apart -> never ended; the same peer while a publish handler is busy for the three periods with the receive limits reached (reading paused) -> never ended, everything answered afterwards}}; \
              frame read rate 1 s / 16 bytes / max 4 s: partial frame then stall and 8 bytes/s trickle -> read timeout, 80 bytes/s -> frame handled, no timeout; half a CONNECT against connect timeout 1 s -> dropped within 3.5 s, no handshake; disabled keep-alive -> still open after 4.5 s; \
              client role keep-alive 1/2 s idle (also with the send window of 1 taken by an unacknowledged publish) -> a PINGREQ in every window of k+1.2 s. A case whose driver woke up more than 0.3 s late is run again with fewer connections at once (up to three more rounds; {inconclusive} left without a verdict this run). Non-trivial = every pattern (each has a decisive gap or partial frame); distinct = (role, source, pattern)"
         ),
